@@ -21,6 +21,13 @@ def population(rng, n, with_foreign):
         nm = "f%02d" % i if i % 3 else "f%02d.v1.bin" % i
         L.append("plant {D}/%s x 444 %d %d" % (nm, m, a))
         desc.append((rank, acc))
+    # cached files with a second name elsewhere (somebody hard-linked them out of the cache, or a
+    # publisher died between its link and its unlink): they are entries like any other
+    if n and rng.below(2):
+        for j in range(1 + rng.below(2)):
+            i = rng.below(n)
+            nm = "f%02d" % i if i % 3 else "f%02d.v1.bin" % i
+            L.append("ln {D}/%s stage/second-name-%d-%d" % (nm, i, j))
     if with_foreign:
         for j in range(rng.below(3)):
             L.append("mkdir {D}/sub%d" % j)
